@@ -103,8 +103,8 @@ def _make(ctx, spec, p_sub, dtype="float", nvdim=None):
         arr = ig.rand_float_values(rng, (*n, nvdim), dtype)
     vkind = gen.pick(rng, ["all", "random", "random", "sparse", "dense"])
     valid = gen.rand_valid(rng, n, vkind)
-    f = df.Field(mesh, nvdim=nvdim, value=arr, vdims=labels, valid=valid.copy(),
-                 unit=gen.pick(rng, ig.UNITS))
+    f = gen.via_history(None, df.Field(mesh, nvdim=nvdim, value=arr, vdims=labels,
+                                       valid=valid.copy(), unit=gen.pick(rng, ig.UNITS)))
     return f, arr, valid, labels, boxes, vkind
 
 
